@@ -24,6 +24,7 @@ def run(ctx, chk):
     chk.rule("C16.R2", "source locking is balanced around macro expansion", floor=1)
     chk.rule("C16.R3", "driver messages use the map entry of the executing index unmodified", floor=6)
     chk.rule("C16.R4", "syntax diagnostics use the error's own position", floor=1)
+    chk.rule("C16.R6", "every assembler diagnostic cites a location of the production that raises it", floor=40)
     chk.rule("C16.R5", "while the source is locked (macro expansion) the recorded source position cannot change", floor=2)
     for nt_data in GA.g["nonterminals"]:
         nt = nt_data["name"]
@@ -105,6 +106,7 @@ def run(ctx, chk):
                     else:
                         chk.ok("C16.R2", f"{label}#path{n}", "set_source(@L0); lock; parse; unlock")
     lock_discipline(ctx, chk)
+    diagnostic_positions(ctx, chk, GA, E)
     # R3 driver
     drv = ctx.program.by_name.get(("bin", "driver::driver::CMDDriver::run"))
     if drv is None:
@@ -194,3 +196,51 @@ def lock_discipline(ctx, chk):
                                   f"into the expanded text and every later instruction of the expansion is attributed to an unrelated line", where)
     if n == 0:
         chk.undecided_("C16.R5", "SourceMapper", "no assignment to source_last found")
+
+
+def own_location(v, desc):
+    """is the position value derived from a lookaround (@L/@R) of the production itself, or a recorded definition site?"""
+    poly = getattr(v, "poly", None)
+    if poly:
+        for mono in poly:
+            if any(isinstance(x, str) and (x.startswith("@L") or x.startswith("@R")) for x in mono):
+                return True
+    if getattr(v, "look", None) is not None:
+        return True
+    if desc and "source_position" in desc:
+        return True  # the position of an earlier definition, recorded from its own @L
+    return False
+
+
+def diagnostic_positions(ctx, chk, GA, E):
+    """C16.R6: error!(start, end, ..) of an assembler action must be given locations of its own production.  Positions
+    taken from somewhere else - typically the (start, end) of an error returned by the nested parse of a macro expansion,
+    which are offsets into the expanded text - make the diagnostic cite an unrelated line of the file."""
+    for nt_data in GA.g["nonterminals"]:
+        nt = nt_data["name"]
+        for k, p in enumerate(nt_data["productions"]):
+            ua = GA.main_user_action(p["action"])
+            if ua["kind"] != "user":
+                continue
+            label = GA.prod_label(nt, k)
+            where = f"{GA.g['file']}:{p['line']}"
+            seen = set()
+            for q in E.prod_paths(nt, k):
+                if getattr(q, "action", None) != ua["idx"]:
+                    continue
+                for e in q.effects:
+                    if e.kind != "error" or e.start is None:
+                        continue
+                    sig = (e.line, e.start, e.end)
+                    if sig in seen:
+                        continue
+                    seen.add(sig)
+                    oks = own_location(getattr(e, "startv", None), e.start)
+                    oke = own_location(getattr(e, "endv", None), e.end)
+                    if oks and oke:
+                        chk.ok("C16.R6", f"{label}@{e.line}", f"error!({e.start}, {e.end}, ..)")
+                    else:
+                        which = "start" if not oks else "end"
+                        chk.violation("C16.R6", label, f"diagnostic-{which}-not-own-location",
+                                      f"{label}: error!({e.start}, {e.end}, ..) - the {which} position is not a location of this production (it is bound somewhere else, e.g. "
+                                      f"by a pattern on the error of a nested parse, whose positions are offsets into the expanded macro text): the diagnostic cites an unrelated line", where)
